@@ -66,7 +66,9 @@ def run(text, args, work, name="t.vhd", deep=False, shuffle=None, repeat=False, 
         obs["exit"] = bool(e.code)
     except RunTimeout:
         obs["status"] = "hang"
-        obs["tb"] = traceback.format_exc()[-1500:]
+        full = traceback.format_exc()
+        obs["in_classifier"] = "_processFile" in full or "design_file" in full
+        obs["tb"] = full[-1500:]
     except Exception as e:
         obs["status"] = "crash:" + type(e).__name__
         obs["tb"] = traceback.format_exc()[-1500:]
@@ -564,7 +566,7 @@ def robust_records(job, nid):
             located = bool(re.search(r"Line\s+\d+", out))      # "one-line-located": the message names the line
             nid += 1
             recs.append({"t": "robust", "id": nid, "file": item["name"], "how": how, "mode": "fix" if k % 2 else "check", "outcome": "hang" if o["status"] == "hang" else ("crash" if o["status"].startswith("crash") else ("rejected" if o["rejected"] else "accepted")),
-                         "status": o["status"], "located": bool(located), "exit": bool(o["exit"]), "rule_crashes": [hooks_name(c) for c in o["crashes"]][:3], "site": ("vhdlFile/classifier" if o["status"] == "hang" and "_processFile" in o.get("tb", "") else site_of(o.get("tb", ""))), "tail": out[-200:], "tb": o.get("tb", "")[-300:]})
+                         "status": o["status"], "located": bool(located), "exit": bool(o["exit"]), "rule_crashes": [hooks_name(c) for c in o["crashes"]][:3], "site": ("vhdlFile/classifier" if o["status"] == "hang" and o.get("in_classifier") else site_of(o.get("tb", ""))), "tail": out[-200:], "tb": o.get("tb", "")[-300:]})
     return recs
 
 
